@@ -13,7 +13,7 @@ LEVEL = 'exploration'
 RULE = ('all formulas without unbounded future (<=2 operators, 3-chains) x all traces w1 up to length n x ALL extensions w2 by 1..k samples over the '
         'alphabet; discrete offline: evaluate(w2)[t] == evaluate(w1)[t] for every t with t+h < |w1| (h = reference horizon); dense offline: grid '
         'signals and their extensions, equality of the step functions at every grid time t with t+h < end(w1); a case (formula, w1, w2) is '
-        'non-trivial when some unsettled position does change between w1 and w2 (the settled boundary is tight); life layer: the same for specification objects '
+        'non-trivial when some unsettled position does change between w1 and w2 (the settled boundary is tight); unit layer: bounded operators (incl. unless) whose bounds are written in ms, or with s and ms mixed, under a sampling period of 500 ms and default unit s; life layer: the same for specification objects '
         'that were configured and evaluated under another default unit / sampling period before (all ordered pairs of 4 configurations, bounds unit-less and with s / ms)')
 ASSUMPTIONS = ['horizon from vf/refsem.py (next = 1); values V3 / {-1,2}; extensions of bounded length']
 
@@ -61,6 +61,11 @@ def shards(tier):
     deep = deep[::3] if tier == 'quick' else deep
     for i in range(0, len(deep), 3):
         out.append({'kind': 'dt', 'deep': True, 'formulas': [F.to_json(f) for f in deep[i:i + 3]]})
+    # bounds written with explicit units that differ from the default unit, under a sampling period of 500 ms
+    un = unit_formulas(tier)
+    for i in range(0, len(un), 12):
+        for style in ('ms', 'mixed'):
+            out.append({'kind': 'dt', 'units': style, 'formulas': [F.to_json(f) for f in un[i:i + 12]]})
     for fi in range(len(LIFE_FORMULAS)):
         for suffix in ('', 's', 'ms'):
             out.append({'kind': 'life', 'formula': fi, 'suffix': suffix})
@@ -71,6 +76,21 @@ def shards(tier):
     return out
 
 
+UNIT_STYLES = {'ms': lambda I: '[%dms,%dms]' % (I[0] * 500, I[1] * 500),
+               'mixed': lambda I: '[%ss,%dms]' % (F.fnum(I[0] * 0.5), I[1] * 500)}
+UNIT_PERIOD = (500, 'ms')
+
+
+def unit_formulas(tier):
+    px, py, X = F.PX, F.PY, F.X
+    fs = []
+    for I in ((0, 1), (1, 2), (2, 3), (0, 3)):
+        fs += [('always', I, px), ('eventually', I, X), ('once', I, px), ('historically', I, X), ('until', I, px, py), ('since', I, px, py), ('unless', I, px, py),
+               ('unless', I, X, ('pred', '<=', X, F.C1)), ('or', ('unless', I, px, py), ('once', (0, 1), X)), ('next', ('unless', I, px, py)),
+               ('always', (0, 1), ('eventually', I, px)), ('and', ('eventually', I, px), ('historically', I, py))]
+    return fs if tier != 'quick' else fs[::2] + fs[1::12]
+
+
 def run_dt(shard, tier, res, mod):
     quick = tier == 'quick'
     for fj in shard['formulas']:
@@ -79,7 +99,12 @@ def run_dt(shard, tier, res, mod):
         h = refsem.horizon(f)
         text = 'out = ' + F.pr(f)
         res.formulas += 1
-        spec = impl.build('dt_off', text, vs)
+        period = None
+        if shard.get('units'):
+            text = 'out = ' + F.pr(f, bound=UNIT_STYLES[shard['units']])
+            period = UNIT_PERIOD
+            res.flags['unit_spelled_formulas'] += 1
+        spec = impl.build('dt_off', text, vs, period=period)
         values = F.V3 if len(vs) == 1 else F.V2
         n1, ext = (4, 2) if len(vs) == 1 else (3, 2)
         if not quick:
@@ -103,6 +128,8 @@ def run_dt(shard, tier, res, mod):
                 o1 = val(w1)
                 res.evaluations += 1
                 case = {'kind': 'dt', 'formula': fj, 'spec': text, 'vars': vs, 'w1': [list(e) for e in w1], 'w2': [list(e) for e in w2]}
+                if period:
+                    case['period'] = list(period)
                 if isinstance(o1, tuple) or isinstance(o2, tuple):
                     res.violation(mod, case, 'evaluate() raised %s' % ((o1 if isinstance(o1, tuple) else o2)[1],))
                     continue
@@ -262,7 +289,7 @@ def replay(case):
         bad = [t for t in range(len(w1)) if t + h < len(w1) and not refsem.same(o1[t], o2[t])]
         return ['settled sample %d changes from %r to %r' % (bad[0], o1[bad[0]], o2[bad[0]])] if bad else []
     if case['kind'] == 'dt':
-        spec = impl.build('dt_off', case['spec'], case['vars'])
+        spec = impl.build('dt_off', case['spec'], case['vars'], period=tuple(case['period']) if case.get('period') else None)
         w1 = tuple(tuple(e) for e in case['w1']); w2 = tuple(tuple(e) for e in case['w2'])
         o1 = [p[1] for p in impl.dt_evaluate(spec, F.trace_dict(w1, case['vars']))]
         o2 = [p[1] for p in impl.dt_evaluate(spec, F.trace_dict(w2, case['vars']))]
